@@ -50,6 +50,25 @@ theorem delete_keeps_order (g g' : G) (sub : List Nat) (h : delete g sub = .ok g
         cases e <;> exact List.filter_sublist
     exact (step _ _).trans List.filter_sublist
 
+/-- The statement at full strength — "removes exactly that object with its descendants" — for a
+subtree that continues in another fragment file. -/
+def C09_full : Prop :=
+  ∀ (g g' : G) (sub localSub : List Nat), (∀ n ∈ localSub, n ∈ sub) →
+    deleteAcrossFragments g sub localSub = .ok g' → ∀ n ∈ g'.elems, n ∉ sub
+
+/-- It fails: a descendant that is the root of its own fragment file survives the deletion of its
+ancestor (known finding `deleted-id-still-in-tree|fragment-spanning`; replayed on the implementation
+by the check on a fragmented copy of the corpus model). -/
+theorem C09_full_fails : ¬ C09_full := by
+  intro h
+  have := h { elems := [1, 2, 3], refs := [] } _ [1, 2] [1] (by decide) (by rfl) 2 (by decide)
+  exact this (by decide)
+
+/-- With the whole subtree in one fragment file (`localSub = sub`) the coded deletion is `delete`,
+for which `delete_ok` holds. -/
+theorem delete_single_fragment_partial (g : G) (sub : List Nat) :
+    deleteAcrossFragments g sub sub = delete g sub := rfl
+
 -- Non-vacuity: a port referenced from a function-port allocation list, a link element and a physical link end
 def exG : G := { elems := [1, 2, 3, 4, 5],
                  refs := [⟨2, "allocated", .attrList, 1, 2⟩, ⟨3, "links", .linkElem, 1, 4⟩, ⟨5, "ends", .refusing, 3, 5⟩] }
